@@ -85,7 +85,9 @@ impl<T: Clone + Copy + Number + Signed + std::cmp::PartialOrd> Matrix<T> {
                     imax = k;
                 }
             }
-            //TODO check max_a to ensure matrix is not singular 
+            // A column that is zero on and below the diagonal needs no elimination
+            // (the matrix is singular and U keeps a zero on its diagonal)
+            if max_a == T::zero() { continue; }
             if imax != i {
                 permutation.swap_rows( i, imax );
                 self.swap_rows( i, imax );
